@@ -29,6 +29,9 @@ def gen(seed, tier):
         else:
             spec["args"] = rng.choice(ARGS)
             spec["kwargs"] = rng.choice(KWARGS)
+            if rng.random() < 0.12:
+                # the same callable object adopted several times without arguments: that many payloads
+                spec["args"], spec["kwargs"], spec["times"] = [], {}, rng.choice([2, 3, 5])
         if via == "queued":
             spec["via"] = "queued"
         elif via == "service-pre":
@@ -109,9 +112,11 @@ def check(h, reason):
     shape = ["C03", tag, sorted((specs[p]["flavour"], specs[p].get("via"), len(specs[p].get("args", [])), len(specs[p].get("kwargs", {}))) for p in specs if not specs[p].get("helper")), ended["how"] if ended else None]
     # 1. adopt calls: return None, never raise (before the end of the run call)
     calls = {}
+    ncalls = {}
     for e in ev:
         if e["kind"] == "adopt-call":
-            calls[e["pid"]] = {"call": e}
+            calls[e["pid"]] = {"call": e}  # judged on the last call of a pid (multi-adopts are back to back)
+            ncalls[e["pid"]] = ncalls.get(e["pid"], 0) + 1
         elif e["kind"] in ("adopt-returned", "adopt-raised") and e["pid"] in calls:
             calls[e["pid"]]["done"] = e
     for pid, c in sorted(calls.items()):
@@ -139,8 +144,9 @@ def check(h, reason):
             V("C03/adopt-returned-value/%s" % fl, "adopt of %s returned %r" % (pid, d.get("value")))
     # 2. never duplicated, anywhere in the run
     for pid, ss in sorted(starts.items()):
-        if len(ss) > 1:
-            V("C03/duplicate-start/%s/%s" % (specs[pid]["flavour"], specs[pid].get("via")), "%s payload %s (via %s) was started %d times (seq %s)" % (specs[pid]["flavour"], pid, specs[pid].get("via"), len(ss), [s["seq"] for s in ss]))
+        allowed = max(1, ncalls.get(pid, 1)) if specs[pid].get("times") else 1
+        if len(ss) > allowed:
+            V("C03/duplicate-start/%s/%s" % (specs[pid]["flavour"], specs[pid].get("via")), "%s payload %s (via %s, handed to adopt %d time(s)) was started %d times (seq %s)" % (specs[pid]["flavour"], pid, specs[pid].get("via"), allowed, len(ss), [s["seq"] for s in ss]))
     # 3. flavour context and arguments of every start
     loops = {s["ctx"]["loop"] for ss in starts.values() for s in ss if specs[s["pid"]]["flavour"] == "asyncio"}
     trios = {s["ctx"]["trio"] for ss in starts.values() for s in ss if specs[s["pid"]]["flavour"] == "trio"}
@@ -157,7 +163,7 @@ def check(h, reason):
                 V("C03/wrong-flavour/asyncio", "asyncio payload %s started in context %r (accept runs on sim thread %s)" % (pid, ctx, h.accept_sid))
             if fl == "trio" and (ctx["trio"] is None or ctx["loop"] is not None):
                 V("C03/wrong-flavour/trio", "trio payload %s started in context %r" % (pid, ctx))
-            if fl == "threading" and (ctx["trio"] is not None or ctx["loop"] is not None or ctx["sid"] in aio_sids or ctx["sid"] in trio_sids or ctx["sid"] == h.accept_sid or thread_sids.count(ctx["sid"]) > 1):
+            if fl == "threading" and (ctx["trio"] is not None or ctx["loop"] is not None or ctx["sid"] in aio_sids or ctx["sid"] in trio_sids or ctx["sid"] == h.accept_sid or (thread_sids.count(ctx["sid"]) > 1 and not specs[pid].get("times"))):
                 V("C03/wrong-flavour/threading", "thread payload %s started in context %r (loop threads: %r %r)" % (pid, ctx, sorted(aio_sids), sorted(trio_sids)))
     if len(loops) > 1 or len(aio_sids) > 1:
         V("C03/wrong-flavour/asyncio-many-loops", "asyncio payloads ran in loops %r on threads %r" % (sorted(map(str, loops)), sorted(aio_sids)))
@@ -180,8 +186,9 @@ def check(h, reason):
                 by = c["call"]["by"]
                 byfl = specs[by]["flavour"] if by in specs else ("main" if by == "main" else "thread")
                 phase = "window" if (window and by != "main" and (running_seen is None or c["call"]["seq"] < running_seen["seq"])) else "steady"
-                if n == 0:
-                    V("C03/lost/%s/%s/by-%s/%s" % (fl, via, byfl, phase), "%s payload %s (via %s, submitted by %s at seq %d, adopt returned) was never started before quiescence (seq %d)" % (fl, pid, via, by, c["call"]["seq"], q_seq))
+                want = ncalls.get(pid, 1) if spec.get("times") else 1
+                if n < want:
+                    V("C03/lost/%s/%s/by-%s/%s%s" % (fl, via, byfl, phase, "/same-callable" if want > 1 else ""), "%s payload %s (via %s, handed to adopt %d time(s) by %s, last at seq %d, adopt returned) was started %d time(s) before quiescence (seq %d)" % (fl, pid, via, want, by, c["call"]["seq"], n, q_seq))
             else:
                 created = next((e for e in ev if e["kind"] == "service-created" and e["pid"] == pid and e["seq"] < q_seq), None)
                 if created is None or created["t"] + 3 * h.knobs.get("accept_delay", 0.25) + 0.5 > quiescent["t"]:
